@@ -83,7 +83,9 @@ def plan(rng, tier):
     if cfg["internal"] == 2 and rng.random() < 0.7:
         cfg["internal"] = rng.choice([3, 4])
     cfg["dom"]["nk"] = rng.choice([12, 16, 24, 32, 48, 64])
-    cfg["dom"]["none"] = False
+    # (None is a legal object key, the smallest one: in a quarter of the
+    # object-keyed runs it is among the keys)
+    cfg["dom"]["none"] = cfg["dom"]["fam"][0] == "O" and rng.random() < 0.25
     if cfg["leaf"] is None:
         cfg["dom"]["nk"] = rng.choice([400, 800])
         cfg["dom"]["ext"] = False
